@@ -105,21 +105,35 @@ def one(s):
             dicts.append(canon(wn.to_dict())); kinds.append("after WNTRSimulator run %d" % (cyc + 1))
             wn.reset_initial_values()
             dicts.append(canon(wn.to_dict())); kinds.append("after reset_initial_values %d" % (cyc + 1))
+        epa = None
         if s.get("epanet"):
             try:
-                s2 = w.sim.EpanetSimulator(wn)
                 import tempfile, os
                 d = tempfile.mkdtemp(prefix="c11_", dir=common.scratch())
-                s2.run_sim(file_prefix=os.path.join(d, "t"))
+                # EPANET on the pristine copy, and on the model right after a WNTRSimulator run that was NOT followed by a reset:
+                # the run changed no definition, so EPANET must compute the same
+                # (EPANET needs a numeric report step: both models get the hydraulic step for these runs)
+                cp2 = copy.deepcopy(cp)
+                rt = wn.options.time.report_timestep
+                cp2.options.time.report_timestep = wn.options.time.report_timestep = s["H"]
+                e0 = w.sim.EpanetSimulator(cp2).run_sim(file_prefix=os.path.join(d, "p"))
+                simnet.run_wntr(w, wn, HW_approx=s["hw"])
+                e1 = w.sim.EpanetSimulator(wn).run_sim(file_prefix=os.path.join(d, "t"))
+                wn.options.time.report_timestep = rt
                 dicts.append(canon(wn.to_dict())); kinds.append("after EpanetSimulator run")
+                epa = (rows_of(s, e0), rows_of(s, e1))
+                wn.reset_initial_values()
             except Exception:
-                pass
+                epa = None
+            finally:
+                if "rt" in dir():
+                    wn.options.time.report_timestep = rt
         rc, _ = simnet.run_wntr(w, cp, HW_approx=s["hw"])
         if rc.error_code is not None:
             return None
     except Exception as e:
         return {"exc": "%s: %s" % (type(e).__name__, str(e)[:160]), "scn": s}
-    return {"scn": s, "dicts": dicts, "kinds": kinds, "runs": [rows_of(s, r) for r in results], "copy": rows_of(s, rc)}
+    return {"scn": s, "dicts": dicts, "kinds": kinds, "runs": [rows_of(s, r) for r in results], "copy": rows_of(s, rc), "epa": epa}
 
 
 def ptag(s):
@@ -173,6 +187,9 @@ def main(tier, replay):
             meta.append(("agree", s, "run %d vs run 1" % (j + 2), None, None))
         agree.append(dict(keys, clause="C11.copy_equal", a=o["runs"][0], b=o["copy"]))
         meta.append(("agree", s, "deepcopy vs original", None, None))
+        if o.get("epa") and o["epa"][0] and len(o["epa"][0]) == len(o["epa"][1]):
+            agree.append(dict(keys, clause="C11.copy_equal", a=o["epa"][0], b=o["epa"][1]))
+            meta.append(("agree", s, "EpanetSimulator after an unreset WNTRSimulator run vs the pristine copy", None, None))
         ck.nontrivial(" ".join(sorted(netgen.features_of(s))))
         ck.count("models")
         ck.count("run_reset_cycles", len(o["runs"]))
